@@ -9,5 +9,5 @@ func init() {
 		},
 		Explanation: "every sentence (Earley) of a reference-LALR(1) grammar must be accepted by every variant; tier P drives the dense table and the packed arrays with a reference LR driver over all strings up to length 5-6",
 	})
-	tgUnit("C02", "gen", []string{"lalr", "separators", "separators", "samehandle", "productive", "nullable"}, 36, 500, 4, 8, 150, 16)
+	tgUnit("C02", "gen", []string{"lalr", "separators", "separators", "samehandle", "productive", "nullable", "bigauto"}, 36, 500, 4, 8, 150, 16)
 }
